@@ -45,6 +45,8 @@ type Solver struct {
 	errors    []string
 	onSlow    func(sec float64, r SatResult, bytes int)
 	plain     bool
+	incremental bool
+	sinceReset int
 }
 
 func NewSolver(tt *TermTable, bin string, timeoutMs int) (*Solver, error) {
@@ -52,6 +54,7 @@ func NewSolver(tt *TermTable, bin string, timeoutMs int) (*Solver, error) {
 	if err := s.start(); err != nil {
 		return nil, err
 	}
+	s.incremental = os.Getenv("VERIF_SOLVER_MODE") == "incremental"
 	if d := os.Getenv("VERIF_SMTDUMP"); d != "" {
 		f, _ := os.CreateTemp("", "vcheck-smt-*.smt2")
 		s.dump = f
@@ -207,19 +210,34 @@ func (s *Solver) Check(conj []*Term, wantModel []*Term) (SatResult, []uint64) {
 	// every query is self-contained: (reset), then only the definitions in the
 	// cone of the asserted terms. (Long push/pop sessions made z3 slower by
 	// orders of magnitude than the same query posed on its own.)
-	s.defd = map[int]bool{}
-	s.ufDecl = map[string]bool{}
-	sb.WriteString("(reset)\n")
-	if !strings.Contains(s.bin, "cvc5") {
-		fmt.Fprintf(&sb, "(set-option :timeout %d)\n", s.timeoutMs)
+	if s.incremental {
+		if s.sinceReset > 4000 {
+			// keep the definition table from growing without bound
+			s.defd = map[int]bool{}
+			s.ufDecl = map[string]bool{}
+			sb.WriteString("(reset)\n")
+			fmt.Fprintf(&sb, "(set-option :timeout %d)\n", s.timeoutMs)
+			s.sinceReset = 0
+		}
+		s.sinceReset++
 	} else {
-		sb.WriteString("(set-logic ALL)\n(set-option :produce-models true)\n")
+		s.defd = map[int]bool{}
+		s.ufDecl = map[string]bool{}
+		sb.WriteString("(reset)\n")
+		if !strings.Contains(s.bin, "cvc5") {
+			fmt.Fprintf(&sb, "(set-option :timeout %d)\n", s.timeoutMs)
+		} else {
+			sb.WriteString("(set-logic ALL)\n(set-option :produce-models true)\n")
+		}
 	}
 	for _, c := range live {
 		s.define(c, &sb)
 	}
 	for _, m := range wantModel {
 		s.define(m, &sb)
+	}
+	if s.incremental {
+		sb.WriteString("(push 1)\n")
 	}
 	for _, c := range live {
 		sb.WriteString("(assert ")
@@ -334,6 +352,9 @@ func (s *Solver) Check(conj []*Term, wantModel []*Term) (SatResult, []uint64) {
 				pi++
 			}
 		}
+	}
+	if s.incremental {
+		s.send("(pop 1)\n")
 	}
 	s.Seconds += time.Since(start).Seconds()
 	if s.onSlow != nil && time.Since(start).Seconds() > 2 {
